@@ -11,6 +11,8 @@
 #![allow(dead_code, unused_imports, clippy::all)]
 
 use super::*;
+#[path = "nd.rs"]
+mod nd;
 use pavex::time::verif_set_now;
 use serde_json::Value;
 
@@ -31,12 +33,12 @@ fn jm(m: &VMap) -> String {
 #[cfg(test)]
 fn vtrace_world(w: &World) {
     let r = |r: &MRec| if r.present { format!("{{\"state\":{},\"deadline\":{}}}", jm(&r.state), r.deadline) } else { "null".to_string() };
-    eprintln!("VTRACE {{\"kind\":\"store\",\"a\":{},\"b\":{},\"now\":{}}}", r(&w.m.recs[0]), r(&w.m.recs[1]), w.now);
+    nd::trace(|| format!("{{\"kind\":\"store\",\"a\":{},\"b\":{},\"now\":{}}}", r(&w.m.recs[0]), r(&w.m.recs[1]), w.now));
 }
 #[cfg(test)]
 fn vtrace_op(name: &str, i: usize, j: usize, st: &VMap, batch: u8) {
     let l = |i: usize| if i == 0 { "A" } else { "B" };
-    eprintln!("VTRACE {{\"kind\":\"op\",\"name\":\"{name}\",\"id\":\"{}\",\"to\":\"{}\",\"state\":{},\"batch\":{batch}}}", l(i), l(j), jm(st));
+    nd::trace(|| format!("{{\"kind\":\"op\",\"name\":\"{name}\",\"id\":\"{}\",\"to\":\"{}\",\"state\":{},\"batch\":{batch}}}", l(i), l(j), jm(st)));
 }
 
 const KA: &str = "a";
@@ -81,10 +83,7 @@ fn of_state(s: &State) -> VMap {
     m
 }
 fn any_vmap() -> VMap {
-    let a: u8 = kani::any();
-    let b: u8 = kani::any();
-    kani::assume(a <= 3 && b <= 3);
-    [a, b]
+    [nd::u8_below(4), nd::u8_below(4)]
 }
 
 fn sid(n: u128) -> SessionId {
@@ -119,9 +118,8 @@ const T_MAX: i64 = 1000;
 const TTL_MAX: u64 = 100;
 
 fn any_mrec() -> MRec {
-    if kani::any() {
-        let deadline: i64 = kani::any();
-        kani::assume(deadline >= 0 && deadline <= T_MAX);
+    if nd::any_bool() {
+        let deadline: i64 = nd::i64_in(0, T_MAX);
         MRec { present: true, state: any_vmap(), deadline }
     } else {
         NOREC
@@ -139,7 +137,7 @@ fn build(m: &Model) -> InMemorySessionStore {
         }
     };
     let (ea, eb) = (e(0, ID_A), e(1, ID_B));
-    let map = if kani::any() { HashMap::from_slots([ea, eb]) } else { HashMap::from_slots([eb, ea]) };
+    let map = if nd::any_bool() { HashMap::from_slots([ea, eb]) } else { HashMap::from_slots([eb, ea]) };
     InMemorySessionStore(Arc::new(Mutex::new(map)))
 }
 
@@ -167,27 +165,25 @@ struct World {
 }
 fn any_world() -> World {
     let m = Model { recs: [any_mrec(), any_mrec()] };
-    let now: i64 = kani::any();
-    kani::assume(now >= 0 && now <= T_MAX);
+    let now: i64 = nd::i64_in(0, T_MAX);
     verif_set_now(now);
     let s = build(&m);
     let w = World { m, s, now };
     vtrace_world(&w);
     w
 }
-/// NOTE: ids are passed to the store as *constants* on each branch (`if kani::any() { f(0) } else
+/// NOTE: ids are passed to the store as *constants* on each branch (`if any_bool() { f(0) } else
 /// { f(1) }`), never as one symbolic index: reading a record's state through a slot reference
 /// obtained with a symbolic key is mis-modelled by CBMC 6.11 (nondeterministic content), a
 /// spurious counterexample that does not reproduce concretely.
 fn any_idx() -> usize {
-    if kani::any() { 0 } else { 1 }
+    if nd::any_bool() { 0 } else { 1 }
 }
 fn id_of(i: usize) -> SessionId {
     sid(if i == 0 { ID_A } else { ID_B })
 }
 fn any_ttl() -> Duration {
-    let t: u64 = kani::any();
-    kani::assume(t >= 1 && t <= TTL_MAX);
+    let t: u64 = nd::u64_in(1, TTL_MAX);
     Duration::from_secs(t)
 }
 
@@ -197,8 +193,7 @@ fn check_views(w: &World, m2: &Model) {
     let (pa, pb) = (phys(&w.s, 0), phys(&w.s, 1));
     assert!(view_at(&pa, w.now) == m2.view(0, w.now), "record A: observable content differs from the reference map");
     assert!(view_at(&pb, w.now) == m2.view(1, w.now), "record B: observable content differs from the reference map");
-    let later: i64 = kani::any();
-    kani::assume(later >= w.now && later <= T_MAX + TTL_MAX as i64 + 1);
+    let later: i64 = nd::i64_in(w.now, T_MAX + TTL_MAX as i64 + 1);
     assert!(view_at(&pa, later) == m2.view(0, later), "record A: observable content differs from the reference map at a later instant");
     assert!(view_at(&pb, later) == m2.view(1, later), "record B: observable content differs from the reference map at a later instant");
 }
@@ -212,7 +207,7 @@ fn check_views(w: &World, m2: &Model) {
 #[kani::stub(std::fmt::format, fmt_stub)]
 fn c13_load() {
     let w = any_world();
-    if kani::any() { load_body(&w, 0) } else { load_body(&w, 1) }
+    if nd::any_bool() { load_body(&w, 0) } else { load_body(&w, 1) }
     std::mem::forget(w);
 }
 fn load_body(w: &World, i: usize) {
@@ -243,7 +238,7 @@ fn load_body(w: &World, i: usize) {
 #[kani::stub(std::fmt::format, fmt_stub)]
 fn c13_write_ops() {
     let w = any_world();
-    if kani::any() { write_body(&w, 0) } else { write_body(&w, 1) }
+    if nd::any_bool() { write_body(&w, 0) } else { write_body(&w, 1) }
     std::mem::forget(w);
 }
 fn write_body(w: &World, i: usize) {
@@ -253,8 +248,7 @@ fn write_body(w: &World, i: usize) {
     let mut m2 = w.m;
     let live = w.m.live(i, w.now);
     let fresh = MRec { present: true, state: st, deadline: w.now + ttl.as_secs() as i64 };
-    let op: u8 = kani::any();
-    kani::assume(op < 3);
+    let op: u8 = nd::u8_below(3);
     vtrace_op(["create", "update", "update_ttl"][op as usize], i, i, &st, 0);
     match op {
         0 => {
@@ -304,8 +298,7 @@ fn write_body(w: &World, i: usize) {
 #[kani::stub(std::fmt::format, fmt_stub)]
 fn c13_delete_change_id() {
     let w = any_world();
-    let c: u8 = kani::any();
-    kani::assume(c < 4);
+    let c: u8 = nd::u8_below(4);
     match c {
         0 => del_body(&w, 0, 0),
         1 => del_body(&w, 0, 1),
@@ -317,7 +310,7 @@ fn c13_delete_change_id() {
 fn del_body(w: &World, i: usize, j: usize) {
     let mut m2 = w.m;
     let live_i = w.m.live(i, w.now);
-    let is_delete: bool = kani::any();
+    let is_delete: bool = nd::any_bool();
     vtrace_op(if is_delete { "delete" } else { "change_id" }, i, j, &[0, 0], 0);
     if is_delete {
         let r = w.s.delete(&id_of(i));
@@ -361,8 +354,7 @@ fn del_body(w: &World, i: usize, j: usize) {
 #[kani::stub(std::fmt::format, fmt_stub)]
 fn c13_delete_expired() {
     let w = any_world();
-    let b: u8 = kani::any();
-    kani::assume(b <= 2);
+    let b: u8 = nd::u8_below(3);
     let batch = NonZeroUsize::new(b as usize);
     let stale = |i: usize| w.m.recs[i].present && !w.m.live(i, w.now);
     let n_stale = stale(0) as usize + stale(1) as usize;
@@ -388,3 +380,19 @@ fn c13_delete_expired() {
     std::mem::forget(w);
 }
 
+
+/// Native search for a concrete failing input (see nd.rs); only built when a counterexample has to
+/// be made concrete.
+#[cfg(test)]
+mod native_search {
+    use super::*;
+    fn reset() {}
+    #[test]
+    fn c13_load() { nd::search("c13_load", super::c13_load, reset) }
+    #[test]
+    fn c13_write_ops() { nd::search("c13_write_ops", super::c13_write_ops, reset) }
+    #[test]
+    fn c13_delete_change_id() { nd::search("c13_delete_change_id", super::c13_delete_change_id, reset) }
+    #[test]
+    fn c13_delete_expired() { nd::search("c13_delete_expired", super::c13_delete_expired, reset) }
+}
